@@ -102,7 +102,7 @@ TooDeep(st) == ScopeSize(st) > st.cfg.depthlimit
 
 -----------------------------------------------------------------------------
 (* expressions *)
-RECURSIVE Eval(_, _), EvalPath(_, _, _, _), EvalFilters(_, _, _), EvalArgs(_, _, _), EvalSeq(_, _, _), SuperText(_, _, _),
+RECURSIVE Eval(_, _), EvalPath(_, _, _, _), EvalFilters(_, _, _), EvalArgs(_, _, _), EvalSeq(_, _, _), SuperText(_, _, _), SuperRun(_, _),
           Exec(_, _), ExecBlock(_, _)
 
 \* string literals are template-author text: Markup under auto-escape
@@ -391,6 +391,11 @@ OutText(v, st) == IF st.cfg.autoescape THEN OutStrEsc(v) ELSE OutStr(v)
 SeqGet(pairs, k, dflt) == IF HHas(pairs, k) THEN HGet(pairs, k) ELSE dflt
 
 \* the `name` of a forloop / the stopindex key: "<identifier>-<iterable text>"
+HasSuper(drop, st, fuel) ==
+  LET stack == IF HHas(st.stacks, drop.name) THEN HGet(st.stacks, drop.name) ELSE <<>> IN
+  ~(drop.level = 0 \/ drop.level >= Len(stack) \/ fuel = 0)
+IsSuperOut(e) == /\ e.k = "filtered" /\ e.filters = <<>> /\ e.left.k = "var" /\ Len(e.left.segs) = 2
+                 /\ e.left.segs[1].v = "block" /\ e.left.segs[2].t = "k" /\ e.left.segs[2].v = "super"
 RECURSIVE ExecNode(_, _), ExecRow(_, _, _, _, _), ExecFor(_, _, _, _, _), ExecWhens(_, _, _, _, _), ExecElifs(_, _, _),
           ExecTemplate(_, _), IncludeIter(_, _, _, _, _, _), RenderIterT(_, _, _, _, _, _, _, _),
           ExecInclude(_, _), ExecRender(_, _), ExecCall(_, _), ExecExtends(_, _), ExecBlockTag(_, _)
@@ -466,6 +471,12 @@ ExecNode(n, st) ==
     \* (RawTag.inner_whitespace_control; follows impl, docs are silent)
     [] n.k = "raw"  -> Write(st, TrimText(n.v, n.wc[2], n.wc[3], st.cfg))
     [] n.k = "comment" -> st
+    \* `{{ block.super }}` on its own: the parent block's render is part of this one (its loops count
+    \* inside the loops around it; the text is rendered output, written as it is)
+    [] n.k \in {"out", "echo"} /\ IsSuperOut(n.e) /\ Resolve("block", st).t = "blockdrop" /\ HasSuper(Resolve("block", st), st, 8) ->
+         LET s1 == SuperRun(Resolve("block", st), st) IN
+         IF s1.err # "" THEN Fail(st, s1.err)
+         ELSE Write([st EXCEPT !.m = s1.m, !.lpcnt = s1.lpcnt], s1.out)
     [] n.k \in {"out", "echo"} ->
          LET v == Eval(n.e, st) IN
          IF IsErr(v) THEN Fail(st, v.cls)
@@ -777,14 +788,16 @@ ExecExtends(n, st) ==
 
 BlockDrop(name, level) == [t |-> "blockdrop", name |-> name, level |-> level]
 
-\* text of `block.super`: the next less-derived definition of the block, rendered
-\* with a `block` of its own (fuel bounds the recursion for TLC)
+\* `block.super`: the next less-derived definition of the block, rendered with a `block` of its
+\* own (fuel bounds the recursion for TLC).  SuperRun is the render as a state: the loops it runs
+\* nest inside the loops around the `block.super` that asked for it (C06), and its measures survive
+SuperRun(drop, st) ==
+  LET def == HGet(st.stacks, drop.name)[drop.level + 1]
+      sc == <<<<"block", BlockDrop(drop.name, drop.level + 1)>>>>
+  IN ExecBlock(def.body, [Fresh(st) EXCEPT !.scopes = Append(@, sc)])
 SuperText(drop, st, fuel) ==
-  LET stack == IF HHas(st.stacks, drop.name) THEN HGet(st.stacks, drop.name) ELSE <<>> IN
-  IF drop.level = 0 \/ drop.level >= Len(stack) \/ fuel = 0 THEN Undef
-  ELSE LET def == stack[drop.level + 1]
-           sc == <<<<"block", BlockDrop(drop.name, drop.level + 1)>>>>
-           s1 == ExecBlock(def.body, [Fresh(st) EXCEPT !.scopes = Append(@, sc)])
+  IF ~HasSuper(drop, st, fuel) THEN Undef
+  ELSE LET s1 == SuperRun(drop, st)
        IN IF s1.err # "" THEN Err(s1.err)
           ELSE IF st.cfg.autoescape THEN Safe(s1.out) ELSE Str(s1.out)
 
